@@ -96,6 +96,46 @@ Definition nl_solve (maxit : nat) (N : nat) (T : Z) (ss ssi : tbl) (prog : list 
   nl_loop maxit (nl_results N T ss ssi prog U shocks) (nl_ok ss Tg tol) (nl_update T ss HU Tg)
           (map (fun _ => repeat g0 (Z.to_nat T)) U).
 
+(** ---- steady state of the DAG: CombinedBlock._steady_state evaluates the blocks one after another, each block's outputs from the
+     table as it stands before the block (SimpleBlock._steady_state: every input wrapped by ignore()) ---- *)
+Definition ss_block (ss : tbl) (b : sblock) : tbl :=
+  fold_left (fun s oe => upd_nth (fst oe) (qeval_ss (qlookup ss) (snd oe)) s) (sb_outs b) ss.
+Definition ss_eval (prog : list sblock) (ss0 : tbl) : tbl := fold_left ss_block prog ss0.
+
+(** names an expression reads *)
+Fixpoint evars (e : @expr Qc) : list nat :=
+  match e with
+  | EVar x => [x] | ENum _ => [] | EShift _ e => evars e | ESs e => evars e | ENeg e => evars e
+  | EAdd a b => evars a ++ evars b | ESub a b => evars a ++ evars b | EMul a b => evars a ++ evars b | EDiv a b => evars a ++ evars b
+  | EPow a _ => evars a
+  end.
+Definition outs_of (b : sblock) : list nat := map fst (sb_outs b).
+(** a well-formed evaluation order over names < N: expressions read declared inputs only, a block does not read its own outputs,
+    every name is produced at most once, and no later block produces a name an earlier block reads or produces *)
+Fixpoint wf_prog (N : nat) (prog : list sblock) : Prop :=
+  match prog with
+  | [] => True
+  | b :: rest =>
+      (forall oe x, In oe (sb_outs b) -> In x (evars (snd oe)) -> In x (sb_ins b)) /\
+      NoDup (outs_of b) /\ (forall o, In o (outs_of b) -> (o < N)%nat /\ ~ In o (sb_ins b)) /\
+      (forall b' o, In b' rest -> In o (outs_of b') -> ~ In o (sb_ins b) /\ ~ In o (outs_of b)) /\
+      wf_prog N rest
+  end.
+
+(** decidable version (the correspondence check evaluates it on every generated case) *)
+Definition memb (x : nat) (l : list nat) : bool := existsb (Nat.eqb x) l.
+Fixpoint nodupb (l : list nat) : bool := match l with [] => true | x :: l' => negb (memb x l') && nodupb l' end.
+Fixpoint wf_progb (N : nat) (prog : list sblock) : bool :=
+  match prog with
+  | [] => true
+  | b :: rest =>
+      forallb (fun oe => forallb (fun x => memb x (sb_ins b)) (evars (snd oe))) (sb_outs b)
+      && nodupb (outs_of b)
+      && forallb (fun o => Nat.ltb o N && negb (memb o (sb_ins b))) (outs_of b)
+      && forallb (fun b' => forallb (fun o => negb (memb o (sb_ins b)) && negb (memb o (outs_of b))) (outs_of b')) rest
+      && wf_progb N rest
+  end.
+
 (** ---- interface for the correspondence check: one iteration replayed from an iterate of the implementation ---- *)
 Definition qo (x : Qc) : Z * Z := (Qnum (this x), Zpos (Qden (this x))).
 (** deviations of the requested names, the stopping decision, and the next iterate *)
@@ -104,6 +144,10 @@ Definition run_nl_step (N : nat) (T : Z) (ss ssi : tbl) (prog : list sblock) (U 
   let res := nl_results N T ss ssi prog U shocks Up in
   (map (fun o => map qo (dev_of ss res o)) outs, nl_ok ss Tg tol res,
    option_map (map (map qo)) (nl_update T ss (nl_HU T N ss prog U Tg) Tg Up res)).
+(** steady state of a DAG from a calibration table, and the nonlinear impulse (deviations of the requested names) *)
+Definition run_dag (N : nat) (T : Z) (calib : tbl) (prog : list sblock) (devs : list (nat * list Qc)) (outs : list nat) :=
+  let ss := ss_eval prog calib in
+  (wf_progb N prog && Nat.eqb (length calib) N, map qo ss, map (fun o => map qo (dev_of ss (nl_eval T ss ss prog (init_paths N ss devs)) o)) outs).
 Definition run_nl_solve (maxit N : nat) (T : Z) (ss ssi : tbl) (prog : list sblock) (U Tg : list nat) (shocks : list (nat * list Qc))
   (tol : Qc) (outs : list nat) :=
   match nl_solve maxit N T ss ssi prog U Tg shocks tol with
